@@ -186,6 +186,11 @@ func TestDecode(t *testing.T) {
 		c := &Case{LT: int(lt), Name: lt.String(), Opts: rapid.IntRange(0, 15).Draw(rt, "opts")}
 		var src string
 		c.Data, src = gen.Bytes(rt)
+		if rapid.IntRange(0, 7).Draw(rt, "suffix") == 0 {
+			if b, slt, ok := gen.StackSuffix(rt); ok {
+				c.LT, c.Name, c.Data, src = int(slt), slt.String(), b, "stack-suffix"
+			}
+		}
 		c.Prog = acc.Gen(rt, acc.ReadOnlyOps, 12)
 		check(rt, c, src)
 	})
